@@ -38,6 +38,10 @@ PREAMBLE = r"""
     fn err_oob(r: &R) -> bool { matches!(r, Err(Error::ValueOutOfBounds(..))) }
     fn err_cast(r: &R) -> bool { matches!(r, Err(Error::InvalidCast(..))) }
     fn is_err(r: &R) -> bool { r.is_err() }
+    // equality helpers may return Result<bool> or Result<Value>
+    trait BoolOut { fn okb(&self, b: bool) -> bool; }
+    impl BoolOut for Result<bool> { fn okb(&self, b: bool) -> bool { matches!(self, Ok(x) if *x == b) } }
+    impl BoolOut for Result<Value> { fn okb(&self, b: bool) -> bool { matches!(self, Ok(Value::Bool(x)) if *x == b) } }
 
     // ---- recorders standing in for dependency operations (rust_decimal, chrono): they log which operation
     // was applied to which operands and return a value drawn by the harness beforehand.
@@ -377,6 +381,18 @@ def table(variant, tags):
         if t[1] == NONE:
             return Spec("err_type(&r)", cls="none", note="a None item follows the ordinary rule of the collection's type: type error")
         return unsupported()
+    if variant in ("Equals", "NotEquals"):
+        # only used when the source implements == / != by a strict function of two values
+        neg = variant == "NotEquals"
+        def res(expr):
+            return f"r.okb(!({expr}))" if neg else f"r.okb({expr})"
+        if NONE in t:
+            return Spec(res("false"), cls="none", note="nothing equals None, not even None")
+        if t[0] != t[1]:
+            return Spec(res("false"), cls="unsupported", note="values of different types are simply not equal (no coercion, no error)")
+        same = {"Int": "a == b", "Float": "a == b", "Decimal": "a == b", "Bool": "a == b", "DateTime": "a == b", "Duration": "a == b",
+                "String": "true", "Vec": "true", "Map": "true"}[t[0]]
+        return Spec(res(same), heavy=(t[0] == "Decimal"))
     raise EncodingError(f"no table entry for {variant} {t}")
 
 
@@ -536,7 +552,8 @@ def cells_for(run, mode, tier, seed=0):
     src = run.read(EVAL)
     arms = eval_arms(src)
     hs = []
-    for variant in UNARY + BINARY:
+    strict_eq = [v for v in ("Equals", "NotEquals") if v in arms and not arms[v]["lazy"] and arms[v]["strict"] == 2 and arms[v]["fn"]]
+    for variant in UNARY + BINARY + strict_eq:
         for tags in all_tag_tuples(variant):
             spec = table(variant, tags)
             if spec is None:
